@@ -29,6 +29,11 @@ def bisect(f, lo, hi, target, it=200):
     return hi
 
 
+def t_neighbourhood(x0, t):
+    """points whose distance from a threshold is of the order of the draw margin (the natural scale of x - t)"""
+    return [x0 + t * k / 4.0 for k in range(-8, 9) if k]
+
+
 def ulp_neighbourhood(x, k=6):
     out, a, b = [x], x, x
     for _ in range(k):
@@ -72,18 +77,20 @@ def sweep_points(res, rng):
             pts.append((max(-40.0, min(40.0, x)), t))
         if res.shard == ti % res.nshards:
             for x0 in thresholds(t):
-                for x in ulp_neighbourhood(x0):
+                for x in ulp_neighbourhood(x0) + t_neighbourhood(x0, t):
                     pts.append((x, t))
             for x in (0.0, -0.0, 1e-300, -1e-300, t, -t, 40.0, -40.0):
                 pts.append((x, t))
     return pts
 
 
-def c17_point(res, x, t, exact, phix):
+def c17_point(res, x, t, exact, phix, order=("v", "w", "vt", "wt")):
     """exact: dict fn -> oracle value;  phix: exact Phi(x - t)"""
     inp = dict(type="leaf", x=x, t=t)
     try:
-        got = {"v": wl_common.v(x, t), "w": wl_common.w(x, t), "vt": wl_common.vt(x, t), "wt": wl_common.wt(x, t)}
+        got = {}
+        for fn_ in order:
+            got[fn_] = getattr(wl_common, fn_)(x, t)
     except Exception as e:  # noqa: BLE001
         res.fail("property", "C17: a correction function raised %s at x=%r t=%r" % (type(e).__name__, x, t), inp)
         return
@@ -92,15 +99,17 @@ def c17_point(res, x, t, exact, phix):
         if not math.isfinite(y):
             res.fail("property", "C17: %s(%r, %r) = %r is not finite" % (fn, x, t, y), inp); return
     slack = 1e-13 / t
-    if got["v"] < 0:
+    if "v" in got and got["v"] < 0:
         res.fail("property", "C17: v(%r, %r) = %r < 0" % (x, t, got["v"]), inp)
     for fn in ("w", "wt"):
-        if not (-slack <= got[fn] <= 1 + slack):
+        if fn in got and not (-slack <= got[fn] <= 1 + slack):
             res.fail("property", "C17: %s(%r, %r) = %r outside [0, 1] (slack %.3g)" % (fn, x, t, got[fn], slack), inp)
     # v, w against V, W
     if phix >= EPS * (1 + 1e-9):
         res.count("v_w_exact_branch")
         for fn in ("v", "w"):
+            if fn not in got:
+                continue
             e = exact[fn]
             if abs(e) < TINY:
                 ok = abs(got[fn] - e) <= 1e-307
@@ -112,11 +121,15 @@ def c17_point(res, x, t, exact, phix):
     else:
         res.count("v_w_asymptotic_branch" if phix < EPS * (1 - 1e-9) else "v_w_knife_edge")
         for fn in ("v", "w"):
+            if fn not in got:
+                continue
             e = exact[fn]
             if abs(got[fn] - e) > 0.02 * abs(e):
                 res.fail("property", "C17: %s(%r, %r) = %r, exact %r: more than 2 percent off on the asymptotic branch" % (fn, x, t, got[fn], e), inp)
-    if abs(got["vt"] - exact["vt"]) > 2 * t * (1 + 1e-9) + 4e-16 * abs(exact["vt"]):
+    if "vt" in got and abs(got["vt"] - exact["vt"]) > 2 * t * (1 + 1e-9) + 4e-16 * abs(exact["vt"]):
         res.fail("property", "C17: vt(%r, %r) = %r, exact %r: off by more than 2t" % (x, t, got["vt"], exact["vt"]), inp)
+    if "wt" not in got:
+        return
     if abs(got["wt"] - exact["wt"]) > 20 * t + 1e-13 / t:
         res.fail("property", "C17: wt(%r, %r) = %r, exact %r: off by more than 20t + 1e-13/t = %.3g" % (
             x, t, got["wt"], exact["wt"], 20 * t + 1e-13 / t), inp)
@@ -126,9 +139,34 @@ def c17_point(res, x, t, exact, phix):
 def c17_points(res, pts):
     drv = Driver()
     outs = drv.run(["HLEAFS %s %s" % (f2h(x), f2h(t)) for (x, t) in pts])
+    rows = []
     for (x, t), o in zip(pts, outs):
         vals = [h2f(y) for y in o.split(" ")[1:]]
-        c17_point(res, x, t, dict(v=vals[0], w=vals[1], vt=vals[2], wt=vals[3]), vals[4])
+        rows.append((x, t, dict(v=vals[0], w=vals[1], vt=vals[2], wt=vals[3]), vals[4]))
+        c17_point(res, x, t, rows[-1][2], vals[4], order=(("v", "w", "vt", "wt"), ("w", "v", "wt", "vt"), ("wt", "vt", "w", "v"), ("vt", "v", "wt", "w"))[len(rows) % 4])
+    # the four functions are functions of (x, t) alone: the same points again in the opposite order, each point's four calls in another
+    # order (w before v, wt before vt) — what an earlier call computed or remembered must not change a later answer
+    nf0 = len(res.failures)
+    for k, (x, t, ex, phix) in enumerate(reversed(rows)):
+        c17_point(res, x, t, ex, phix, order=(("w", "v", "wt", "vt"), ("wt", "w", "vt", "v"), ("w", "vt", "v", "wt"))[k % 3])
+        res.count("leaf_points_re_evaluated_in_another_call_order")
+        if len(res.failures) > nf0 + 20:
+            break
+    # one function at a time, ascending and then descending in x - t (a guard position or a table remembered from earlier calls of the
+    # SAME function must not change a later answer either)
+    asc = sorted(rows, key=lambda r: (r[0] - r[1], r[1]))
+    import importlib
+    for fn_ in ("w", "v", "wt", "vt"):
+        try:
+            importlib.reload(wl_common)      # module-level state as in a process that has not called any correction function yet
+        except Exception:  # noqa: BLE001
+            pass
+        for seq in (asc, asc[::-1]):
+            for (x, t, ex, phix) in seq:
+                c17_point(res, x, t, ex, phix, order=(fn_,))
+                res.traces -= 1
+            if len(res.failures) > nf0 + 40:
+                return
 
 
 def c17_cdf(res, xs):
